@@ -188,6 +188,16 @@ func vContention() {
 		id++
 		submitted++
 	}
+	// if the worker already holds the first item (parked at the gate), top the buffer up again: it then
+	// stays full and untouched by the worker while the two producers arrive
+	parked := false
+	if policy != BufferFullPolicyBlock && app.entered == 1 {
+		vSubmit(l, vItem{kind: 0, id: id, level: 300})
+		id++
+		submitted++
+		parked = true
+	}
+	firstArrival := id
 	if policy == BufferFullPolicyBlock {
 		// with Block the producers need the worker to make room: open the gate up-front
 		for i := 0; i < 6; i++ {
@@ -215,6 +225,19 @@ func vContention() {
 	delivered := len(app.got)
 	discarded := int(l.GetDiscardCounter())
 	vAssert(delivered+discarded == submitted, "delivered-plus-discarded-equals-submitted-under-contention")
+	if policy == BufferFullPolicyDiscardOldest && capacity >= 2 && parked {
+		// the buffer was full and the worker parked: the two arrivals fit into the buffer, and
+		// DiscardOldest keeps the arriving items and drops older ones
+		for want := firstArrival; want <= firstArrival+1; want++ {
+			found := false
+			for _, g := range app.got {
+				if g == want {
+					found = true
+				}
+			}
+			vAssert(found, "discard-oldest-keeps-the-arriving-item")
+		}
+	}
 	for i := range app.got {
 		for j := i + 1; j < len(app.got); j++ {
 			vAssert(app.got[i] != app.got[j], "nothing-delivered-twice")
